@@ -45,6 +45,10 @@ type Bus struct {
 	// FailSend makes Publish fail for the envelopes it selects: the sender gets
 	// an error and nothing is delivered (a connection fault at send time).
 	FailSend func(from, to string, e *wire.Envelope) bool
+	// Sink may consume a published envelope at the moment of its delivery, in
+	// place of the recipient's client (the harness plays a protocol role of
+	// the recipient, e.g. the receiver of a channel synchronisation reply).
+	Sink func(to string, e *wire.Envelope) bool
 	// Intercept may swallow or replace an envelope (adversarial engines).
 	Intercept func(from, to string, e *wire.Envelope) (*wire.Envelope, bool)
 }
@@ -248,6 +252,10 @@ func (b *Bus) Publish(ctx context.Context, e *wire.Envelope) error {
 		if c == nil {
 			b.S.Event(to, "recv-drop", desc+" (no subscriber)"+tag)
 			b.S.Count("fault.no_subscriber_loss", 1)
+			return
+		}
+		if b.Sink != nil && b.Sink(to, e) {
+			b.S.Event(to, "recv:"+msgType(e.Msg), desc+" <- "+from+tag+" (taken by the driver)")
 			return
 		}
 		b.S.Event(to, "recv:"+msgType(e.Msg), desc+" <- "+from+tag)
